@@ -67,6 +67,9 @@ for tgt, kind, prefix in (("java", "block", ""), ("typescript", "block", ""), ("
                           ("golang", "line", "//"), ("python", "line", "#:")):
     for k in range(0, 4):
         post = ("block_comment_ok(result)" if kind == "block" else f"line_comment_ok(result, {prefix!r})")
+        if tgt == "cpp":
+            # C++ only: a // comment whose line ends in a backslash swallows the next line
+            post += " and no_line_continuation(result)"
         variants = [("", [])]
         if kind == "block" and k >= 2:
             # (a) texts without "*/": proved; (b) all texts: "*/" is the recorded finding, anything else is new
@@ -99,3 +102,13 @@ UNITS.append(Native(
           "a descendant) through the Java target: every generated *.java file (~470, the generated tests included) is "
           "parsed with JavacTask.parse(); the files that import neither Jackson nor JUnit are compiled with javac (compile "
           "errors are recorded in the evidence only: the property says 'parses')", args={}, timeout_s=1500))
+
+UNITS.append(Native(
+    "generated C++ sources without third-party includes pass g++ -fsyntax-only", ["C20"], "native.c20cpp:bounded",
+    kind="examples",
+    bound="the 10 meta-models of the Java unit restricted to ASCII texts (the C++ generator refuses non-ASCII literals: "
+          "recorded finding of C02) through the C++ target: every src/*.cpp except jsonization.cpp and xmlization.cpp "
+          "(~90 files) against the generated headers with g++ -std=c++17 -fsyntax-only; tl/expected.hpp (third-party) is "
+          "replaced by declarations; lexical and syntactic errors are reported, semantic ones (a redefinition for a class "
+          "without properties) recorded in the evidence only; the generated tests (Catch2) are not checked",
+    args={}, timeout_s=1500))
